@@ -201,14 +201,14 @@ impl<const TAG: u32> VArc<TAG> {
             Lookup::Live(id) => {
                 let tag = reg(|r| r.tag(id));
                 if tag != TAG {
-                    rt::violation("C12", "type-tag", format!("{} of type tag {} is used as type tag {}", describe(addr), tag, TAG));
+                    rt::violation("C12,C03", "type-tag", format!("{} of type tag {} is used as type tag {}", describe(addr), tag, TAG));
                     return u64::MAX;
                 }
                 let label = reg(|r| r.label(id));
                 unsafe { (*self.ptr).payload.read(&format!("payload of value #{}", label), |v| *v) }
             }
             Lookup::Dead(_) => {
-                rt::violation("C01", "poison", format!("use after free: {} was read through a handle after its destruction", describe(addr)));
+                rt::violation("C01,C02", "poison", format!("use after free: {} was read through a handle after its destruction", describe(addr)));
                 u64::MAX
             }
             Lookup::Unknown => {
@@ -264,11 +264,11 @@ impl<const TAG: u32> Clone for VArc<TAG> {
             Lookup::Live(_) => {
                 let old = unsafe { (*self.ptr).strong.fetch_add(1, Relaxed) };
                 if old == 0 && !rt::draining() {
-                    rt::violation("C01", "poison", format!("the count of {} was incremented from zero", describe(addr)));
+                    rt::violation("C01,C02", "poison", format!("the count of {} was incremented from zero", describe(addr)));
                 }
             }
             Lookup::Dead(_) => {
-                rt::violation("C01", "poison", format!("use after free: the count of {} was incremented after its destruction", describe(addr)));
+                rt::violation("C01,C02", "poison", format!("use after free: the count of {} was incremented after its destruction", describe(addr)));
             }
             Lookup::Unknown => {
                 rt::violation("C01", "wild-pointer", format!("count increment through a pointer to {}", describe(addr)));
@@ -312,7 +312,7 @@ impl<const TAG: u32> Drop for VArc<TAG> {
                 }
             }
             Lookup::Dead(_) => {
-                rt::violation("C01", "poison", format!("use after free / double release: the count of {} was decremented after its destruction", describe(addr)));
+                rt::violation("C01,C02", "poison", format!("use after free / double release: the count of {} was decremented after its destruction", describe(addr)));
             }
             Lookup::Unknown => {
                 rt::violation("C01", "wild-pointer", format!("count decrement through a pointer to {}", describe(addr)));
@@ -337,7 +337,7 @@ unsafe impl<const TAG: u32> RefCnt for VArc<TAG> {
             Lookup::Live(id) | Lookup::Dead(id) => {
                 let tag = reg(|r| r.tag(id));
                 if tag != TAG {
-                    rt::violation("C12", "type-tag", format!("{} of type tag {} was turned into a pointer of type tag {}", describe(addr), tag, TAG));
+                    rt::violation("C12,C03", "type-tag", format!("{} of type tag {} was turned into a pointer of type tag {}", describe(addr), tag, TAG));
                 }
             }
             Lookup::Unknown => {
